@@ -32,7 +32,9 @@ P = {
  "C12": (True, "error-flow in rule construction, case-set agreement tables, anchored-regex format, SSA edge cuts: rule evaluation dominates every delivery/forward/notify, Drop/Reject arms cannot reach delivery",
          "Decides, for every rule set and packet, the structural clauses of C12: no error of the rule builders can be dropped (a bad pattern cannot silently widen a rule); parser, literal matcher, regex matcher and BuildComps share one field vocabulary wired to the right packet fields; unknown keys/actions/non-string values only reach failing returns; /regex/ is compiled between ^( and )$; in handleMessageData the merged rule result dominates dispatch, listener delivery, forwarding and notices, the loop stops at the first non-Continue result, the only constant default is Accept, the Drop arm reaches nothing and the Reject arm reaches only the 'blocked by firewall' notice. It does not decide regexp semantics or notice delivery over the mesh.",
          "Trusts go/types, go/ssa, regexp and fmt.Sprintf semantics as stated in the evidence file."),
- "C13": (False, "lockset atomicity of ID generation; release reaches delete; constant-state monotonicity per writer over CFG paths", "", ""),
+ "C13": (True, "lockset atomicity of ID generation + indexing, who-may-call, release ordering path rules over all WorkUnit.Release siblings, per-function monotonicity of constant state writes over CFG paths, frozen table of non-constant state writers",
+         "Decides for every schedule and command sequence: unit IDs are generated only inside AllocateUnit's activeUnitsLock write section that also indexes the unit (no release in between, callee not self-locking), and a directory is created only for an ID neither indexed nor on disk; every Release implementation reaches the base release, where directory removal precedes the index delete, success implies the delete and a non-forced removal failure never forgets the unit; along every CFG path of every state-writing function of package workceptor (kubernetes worker excluded) constant states never decrease in stage and a terminal constant is never replaced by another; non-constant state writers are a frozen table; Cancel signals, waits, then writes Canceled, and Release cancels first. It does not decide cross-writer races or size monotonicity at run time.",
+         "Trusts go/types, go/ssa, sync.RWMutex; path feasibility approximated with flag threading only."),
  "C14": (False, "who-may-open the status file; lock-before-open and deferred unlock; read-modify-write in one section; guarded-by on the in-memory copy", "", ""),
  "C15": (True, "SSA edge cuts + dominance: every effectful work command is dominated by the success edge of processSignature with value-identical work type/sign flag/unit; decision and verifier success conditions; who-may-call tables",
          "Decides, for every command and token, that allocate/cancel/release/results effects in the work ControlFunc are unreachable unless processSignature (about the same work type, sign flag and unit) returned nil in the same arm; that processSignature returns nil only for a non-verifying type with an empty token, a Unix-socket peer, or a successful VerifySignature; that VerifySignature returns nil only after non-empty token, configured key, key load, ParseWithClaims with claims validation enabled into RegisteredClaims, token.Valid and VerifyAudience(this node, required); that the key func yields a typed *rsa.PublicKey; and that no other control command reaches the effect functions. It does not decide JWT/RSA cryptography or clocks.",
